@@ -288,6 +288,7 @@ def shard(m, items, maxlen=4):
             m.violation(f'compile-or-modelgen-failed/{type(e).__name__}', error=str(e)[:300], **where0)
             continue
         m.add('programs')
+        impl.rule_reach(m, 'template-rules', tname, model, list(gs.inputs(alpha, maxlen)))
         for text in gs.inputs(alpha, maxlen):
             where = dict(grammar=gtext, input=text)
             try:
